@@ -301,8 +301,8 @@ pub async fn dump(c: &crate::simkit::cluster::Cluster) -> String {
     for v in crate::simkit::cluster_ext::all_views(c).await {
         let _ = writeln!(
             o,
-            "   n{} {:?} t{} vf{:?} c{} log{:?} dur{} app{} next{:?} match{:?} q{:?} ntf{:?}",
-            v.id, v.role, v.term, v.voted_for, v.commit,
+            "   [{}ms] n{} {:?} lease{:?} dl{:?} t{} vf{:?} c{} log{:?} dur{} app{} next{:?} match{:?} q{:?} ntf{:?}",
+            c.clock_ms, v.id, v.role, v.lease_left, v.deadline_left, v.term, v.voted_for, v.commit,
             v.log.iter().map(|e| (e.index, e.term)).collect::<Vec<_>>(),
             v.durable, v.applied, v.next_index, v.match_index, v.queues, v.notified_leader
         );
